@@ -254,3 +254,31 @@ Theorem p4_sustained_timeouts_never_trip :
   forallb (fun o => negb (was_rejected o))
           (snd (run cfg_default (init_world cfg_default 1000000000000) (p4_history wrap_p4))) = true.
 Proof. vm_compute. reflexivity. Qed.
+
+(* ------------------------------------------------------------------------------------
+   P5 (seeded change C01-11): loggedThrottle.doReq wraps the caller's predicate as
+     func(err) bool { if err == nil || acceptable(err) { return true }; errWin.add(..); return false }
+   - the predicate is never asked about a NIL error.  A predicate that classifies by side state
+   (rest/httpc: err == nil && resp.StatusCode < 500) is overruled: a backend answering 100 % 5xx
+   behind nil errors never trips the breaker. *)
+Definition counts_p5 (e : entry) (o : outcome) : bool := returns_nil o || counts_as_success e o.
+
+Theorem p5_nil_shortcut_refuted :
+  ~ (forall e o, e = EDoAcc \/ e = EDoFbAcc -> (counts_p5 e o = true <-> pred_answer o = Some true)).
+Proof. intros H. destruct (H EDoAcc OOkRej (or_introl eq_refl)) as (H1 & _). specialize (H1 eq_refl). discriminate H1. Qed.
+
+(* 100 calls through DoWithAcceptable returning nil with a 5xx behind it, then 6 drawing 0 *)
+Definition p5_call (u : Q) : call := mkCall EDoAcc CNone OOkRej 1000000 0 u.
+Definition p5_history : list call := repeat (p5_call (999 # 1000)) 100 ++ repeat (p5_call 0) 6.
+Definition p5_as_pinned (c : call) : call :=
+  mkCall (k_entry c) (k_ctx c) (if counts_p5 (k_entry c) (k_out c) then OOk else k_out c) (k_gap c) (k_dur c) (k_u c).
+
+Example p5_head_sheds :
+  map was_rejected (skipn 100 (snd (run cfg_default (init_world cfg_default 1000000000000) p5_history)))
+  = repeat true 6.
+Proof. vm_compute. reflexivity. Qed.
+
+Theorem p5_all_5xx_never_trips :
+  forallb (fun o => negb (was_rejected o))
+          (snd (run cfg_default (init_world cfg_default 1000000000000) (map p5_as_pinned p5_history))) = true.
+Proof. vm_compute. reflexivity. Qed.
